@@ -3,7 +3,7 @@
 From Coq Require Extraction.
 From Coq Require Import ExtrOcamlBasic.
 From Coq Require Import List NArith ZArith.
-From YV Require Import Lib.Bytes Ids.Ranges Codec.Varint Codec.AnyCodec Codec.IdSetCodec Codec.UpdateV1 Codec.V2Cols Codec.UpdateV2 Codec.IdMapCodec Codec.WireV2 Codec.IdMapV2 Codec.Messages Codec.Cells Crdt.Doc Crdt.Local Crdt.Snapshot Crdt.Sticky Crdt.GcBlocks Crdt.YataBlocks Crdt.BlockIter Crdt.Dispatch Crdt.Redo Crdt.Links Crdt.Blocks Crdt.Merge Crdt.Diff Crdt.ApplyDelete Crdt.Integrate Crdt.RichText Crdt.XmlWalk Crdt.WriteBlocks Crdt.Events Crdt.Undo OpSet.Awareness.
+From YV Require Import Lib.Bytes Ids.Ranges Codec.Varint Codec.AnyCodec Codec.IdSetCodec Codec.UpdateV1 Codec.V2Cols Codec.UpdateV2 Codec.IdMapCodec Codec.WireV2 Codec.IdMapV2 Codec.Messages Codec.Cells Crdt.Doc Crdt.Local Crdt.Snapshot Crdt.Sticky Crdt.GcBlocks Crdt.YataBlocks Crdt.BlockIter Crdt.Dispatch Crdt.Redo Crdt.RedoFix Crdt.Links Crdt.Blocks Crdt.Merge Crdt.Diff Crdt.ApplyDelete Crdt.Integrate Crdt.RichText Crdt.XmlWalk Crdt.WriteBlocks Crdt.Events Crdt.Undo OpSet.Awareness.
 Extraction Language OCaml.
 Extraction "model.ml"
   N.add N.mul N.sub N.div_eucl N.eqb N.ltb N.leb N.of_nat N.to_nat
@@ -30,7 +30,7 @@ Extraction "model.ml"
   yib_integrate_off yib_expand yib_seq_ok yib_fresh
   evd_deep_calls evd_changed_parent_types
   bit_array_insert bit_array_remove_range bit_ok bit_noncountable_deleted
-  rdo_renders rdo_state0
+  rdo_renders rdo_renders_fixed rdo_state0
   gcb_run gcb_gc_api gcb_cells_view gcb_total_ok gcb_clients_ok gcb_branches_view
   xw_build xw_observe xw_wfb xw_find xw_check_spec
   rt_apply_auto rt_render rt_spec_apply rt_op_ok rt_items_eqb_gc rt_wf relems_eqb
